@@ -33,6 +33,19 @@ type adversary struct {
 	seen   map[hotstuff.View]*hotstuff.Block // proposals of honest leaders seen by a Byzantine replica, by view
 	ll     *lockless
 	fh     *fhsHide
+	ff     *forgeFork
+}
+
+// forgeFork is a directed attack that turns any accepted forgery into disagreement: the Byzantine replica Z leads every
+// view and certifies its own blocks with certificates of one forged shape (knob ffKind). It shows the chain X1 <- X2 <- ...
+// to replica A and the chain Y1 <- Y2 <- ... to replica B, one view at a time. As long as every forged certificate is
+// rejected nothing happens; if the shape is accepted, A commits X1 and B commits Y1.
+type forgeFork struct {
+	z, a, b hotstuff.ID
+	kind    int
+	phase   int
+	at      time.Duration
+	x, y    []*hotstuff.Block
 }
 
 // fhsHide is a directed attack on Fast-HotStuff with aggregate QCs ("a certified chain nobody reports"): the Byzantine
@@ -85,6 +98,10 @@ func newAdversary(w *World) *adversary {
 			}
 			a.ll = ll
 			w.after(time.Millisecond, "lockless", func() { a.locklessStep() })
+		}
+		if b.Kind == "script" && has(b.Acts, "forgefork") && a.ff == nil && w.plan.knob("ffA", 0) != 0 && w.plan.knob("ffB", 0) != 0 {
+			a.ff = &forgeFork{z: hotstuff.ID(b.ID), a: hotstuff.ID(w.plan.knob("ffA", 0)), b: hotstuff.ID(w.plan.knob("ffB", 0)), kind: w.plan.knob("ffKind", 0)}
+			w.after(time.Millisecond, "forgefork", func() { a.forgeForkStep() })
 		}
 		if b.Kind == "script" && has(b.Acts, "fhshide") && w.plan.N == 4 && a.fh == nil {
 			fh := &fhsHide{z: hotstuff.ID(b.ID), blk: map[string]*hotstuff.Block{}}
@@ -256,6 +273,111 @@ func (a *adversary) locklessStep() {
 	case 8:
 		w.probe("attack:lockless-completed")
 		ll.phase = 9
+	}
+}
+
+// forgedFor returns a certificate of the attack's shape for block b (votes: what Z has been sent for it).
+func (a *adversary) forgedFor(nd *Node, b *hotstuff.Block, kind int) (hotstuff.QuorumCert, bool) {
+	w := a.w
+	q := w.orc.q
+	own := a.ownSig(nd, b.ToBytes())
+	if own == nil {
+		return hotstuff.QuorumCert{}, false
+	}
+	var vote hotstuff.QuorumSignature
+	for _, v := range a.votes {
+		if v.BlockHash() == b.Hash() && v.Signer() != nd.id && v.Signature() != nil && v.Signature().Participants().Len() == 1 {
+			vote = v.Signature()
+		}
+	}
+	var ids []hotstuff.ID
+	for _, id := range a.others(nd) {
+		if len(ids) < q-1 {
+			ids = append(ids, id)
+		}
+	}
+	var sig hotstuff.QuorumSignature
+	switch kind {
+	case 0:
+		sig = repeatSig(own, q)
+	case 1, 2, 3:
+		sig = oneValidSig(w.plan.Crypto, own, nd.id, ids, kind-1)
+	case 4:
+		if vote != nil {
+			if c, err := nd.raw.Combine(own, vote); err == nil {
+				sig = c // two genuine signers: below the quorum
+			}
+		}
+	case 5:
+		sig = own
+	case 6:
+		sig = emptySig(w.plan.Crypto)
+	case 7:
+		if vote != nil {
+			sig = repeatOtherSig(own, vote, q-1)
+		}
+	case 8:
+		return hotstuff.NewQuorumCert(nil, b.View(), b.Hash()), true
+	case 9:
+		if vote != nil {
+			sig = sandwichSig(own, vote) // own, the victim's genuine vote, own again: repeats that are not neighbours
+		}
+	}
+	if sig == nil {
+		return hotstuff.QuorumCert{}, false
+	}
+	return hotstuff.NewQuorumCert(sig, b.View(), b.Hash()), true
+}
+
+func (a *adversary) forgeForkStep() {
+	w, ff := a.w, a.ff
+	if w.ended || w.viol != nil || ff.phase > 7 {
+		return
+	}
+	defer w.after(500*time.Microsecond, "forgefork", func() { a.forgeForkStep() })
+	nd := w.primary(int(ff.z))
+	if nd == nil || nd.crashed {
+		return
+	}
+	if ff.phase > 0 && w.now()-ff.at < 2*time.Millisecond {
+		return
+	}
+	g := hotstuff.GetGenesis()
+	next := func(chain []*hotstuff.Block, name string, to hotstuff.ID) ([]*hotstuff.Block, bool) {
+		parent, qc := g, hotstuff.NewQuorumCert(nil, 0, g.Hash())
+		if len(chain) > 0 {
+			parent = chain[len(chain)-1]
+			var ok bool
+			if qc, ok = a.forgedFor(nd, parent, ff.kind); !ok {
+				return chain, false
+			}
+		}
+		a.ctr++
+		batch := &clientpb.Batch{Commands: []*clientpb.Command{{ClientID: 7500, SequenceNumber: a.ctr, Data: []byte(fmt.Sprintf("%s%d", name, len(chain)+1))}}}
+		b := hotstuff.NewBlock(parent.Hash(), qc, batch, hotstuff.View(len(chain)+1), ff.z)
+		w.reg.add(b, nd)
+		a.sendTo(nd, to, "propose", hotstuff.ProposeMsg{ID: ff.z, Block: b})
+		if len(chain) > 0 {
+			// the certificate of the previous block once more, on its own: whatever the first look at it left behind
+			// (a cache entry, a parked verification) is there for the second
+			a.sendTo(nd, to, "newview", hotstuff.NewViewMsg{ID: ff.z, SyncInfo: hotstuff.NewSyncInfoWith(qc), FromNetwork: true})
+			a.sendTo(nd, to, "propose", hotstuff.ProposeMsg{ID: ff.z, Block: b})
+		}
+		return append(chain, b), true
+	}
+	var okx, oky bool
+	ff.x, okx = next(ff.x, "X", ff.a)
+	ff.y, oky = next(ff.y, "Y", ff.b)
+	if !okx && !oky && ff.phase > 0 {
+		w.probe("attack:forgefork-shape-unavailable")
+	}
+	if ff.phase == 0 {
+		a.fired("forgefork")
+	}
+	ff.at = w.now()
+	ff.phase++
+	if ff.phase == 8 {
+		w.probe("attack:forgefork-completed")
 	}
 }
 
